@@ -31,6 +31,10 @@ pub struct PromoteSpec {
     /// WORTERBUCH_USE_PERSISTENCE=true in the environment of the new leader (the command line the
     /// orchestrator builds carries only the role flags)
     pub env_persistence: bool,
+    /// the follower instance is restarted (as the orchestrator does) and the leader vanishes this
+    /// many scheduler rounds after the new instance began to connect
+    #[serde(default)]
+    pub rejoin_race: Option<u32>,
 }
 
 #[derive(Clone, Debug, Serialize, Deserialize, PartialEq)]
@@ -64,6 +68,7 @@ pub fn gen_spec(rng: &mut Rng, focus: &str, thorough: bool) -> ClusterSpec {
             Some(PromoteSpec {
                 clean_stop: rng.chance(2, 3),
                 env_persistence: rng.chance(1, 2),
+                rejoin_race: if rng.chance(1, 4) { Some(rng.range(0, 40) as u32) } else { None },
             })
         } else {
             None
@@ -389,13 +394,59 @@ pub async fn check_promotion(
     };
     // let a periodic flush of the follower pass so that a killed follower has the marker state
     tokio::time::sleep(Duration::from_secs(spec.interval_s * 2 + 1)).await;
-    leader.kill();
-    simcore::ctx::count("leader_killed");
-    tokio::time::sleep(Duration::from_millis(50)).await;
     let (dir, mut handle) = {
         let mut g = followers.lock().expect("followers");
         (g[fi].dir.clone(), g[fi].handle.take())
     };
+    if let Some(rounds) = p.rejoin_race {
+        // the follower instance is replaced by a new one on the same directory, and the leader
+        // dies while the new one is connecting / waiting for its initial state
+        if let Some(h) = handle.as_mut() {
+            if p.clean_stop {
+                if let Err(e) = h.stop().await {
+                    out.violate("C12", "follower-stop-failed", "a follower did not shut down cleanly", e);
+                    return;
+                }
+            } else {
+                h.kill();
+            }
+        }
+        handle = None;
+        tokio::time::sleep(Duration::from_millis(5)).await;
+        let (d2, port, interval) = (dir.clone(), spec.sync_port, spec.interval_s);
+        let name = format!("f{fi}x");
+        let jh = tokio::spawn(async move { start_follower(&name, d2, port, interval, 1000).await });
+        for _ in 0..rounds {
+            tokio::task::yield_now().await;
+        }
+        leader.kill();
+        simcore::ctx::count("leader_killed");
+        simcore::ctx::count("leader_killed_while_follower_rejoins");
+        tokio::time::sleep(Duration::from_millis(50)).await;
+        match tokio::time::timeout(Duration::from_secs(30), jh).await {
+            Ok(Ok(Ok(mut h))) => {
+                // an instance whose initial sync was cut short ends with an error and leaves its
+                // directory alone - that is in order; only one that got its state is stopped the
+                // regular way below
+                let synced = match tokio::time::timeout(Duration::from_secs(5), view_of(&h.api)).await {
+                    Ok(Some(v)) => v.user.contains_key("marker/final"),
+                    _ => false,
+                };
+                if synced {
+                    out.probe("rejoining_follower_got_its_initial_state");
+                    handle = Some(h);
+                } else {
+                    out.probe("rejoining_follower_gave_up");
+                    h.kill();
+                }
+            }
+            _ => out.probe("rejoining_follower_gave_up"),
+        }
+    } else {
+        leader.kill();
+        simcore::ctx::count("leader_killed");
+        tokio::time::sleep(Duration::from_millis(50)).await;
+    }
     if let Some(h) = handle.as_mut() {
         if p.clean_stop {
             if let Err(e) = h.stop().await {
@@ -451,7 +502,19 @@ pub async fn check_promotion(
     for (k, v) in &lv.registrations {
         snap.map.insert(k.clone(), Entry { value: v.clone(), cas: None });
     }
-    let want = recovered_candidates(&snap);
+    let mut want = recovered_candidates(&snap);
+    if p.rejoin_race.is_some() {
+        // a re-joined instance that got its initial state holds the leader's current keys (which
+        // may be ahead of what the old instance had: finding F12)
+        let mut snap2 = model::Store::default();
+        for (k, e) in &lv.user {
+            snap2.map.insert(k.clone(), e.clone());
+        }
+        for (k, v) in &lv.registrations {
+            snap2.map.insert(k.clone(), Entry { value: v.clone(), cas: None });
+        }
+        want.extend(recovered_candidates(&snap2));
+    }
     out.nontrivial = !lv.registrations.is_empty();
     if want.iter().any(|w| w == &nv.user) {
         out.probe("promotion_ok");
@@ -471,7 +534,11 @@ pub async fn check_promotion(
         } else {
             "the promoted leader starts empty although the follower had data"
         }
-    } else if recovered_candidates(&with_follower_regs).iter().any(|w| w == &nv.user) {
+    } else if recovered_candidates(&with_follower_regs).iter().any(|w| w == &nv.user)
+        || (p.rejoin_race.is_some() && (nv.user == fv.user || nv.user == lv.user))
+    {
+        // (a follower instance that re-joined knows none of the registrations: all of them were
+        // made before *this* join)
         "the promoted leader only buries / publishes registrations the follower knew about (those made before it joined are lost)"
     } else if nv.user == fv.user {
         "the promoted leader serves the follower's keys but applied no grave goods / last wills"
